@@ -600,7 +600,11 @@ func (x *X) jnAxioms(s Term) {
 	if x.enc.bv {
 		x.vc.assume(mkImplies(isInt, mkEq(fv, x.enc.intToFloat(iv, types.Typ[types.Int64], SF64))))
 	}
-	x.enc.assumption("encoding/json.Number: Int64 succeeds iff the text is an integer in int64 range and then Float64 succeeds with the nearest double; a successful Float64 is finite (syntactically valid JSON numbers)")
+	// a json.Number holds a syntactically valid JSON number (what encoding/json
+	// produces under UseNumber): Float64 fails only with a range error, and
+	// then returns an infinity
+	x.vc.assume(mkImplies(mkNot(isF), app(SBool, "fp.isInfinite", fv)))
+	x.enc.assumption("encoding/json.Number: Int64 succeeds iff the text is an integer in int64 range and then Float64 succeeds with the nearest double; a successful Float64 is finite; every json.Number is a syntactically valid JSON number, so a failing Float64 is a range error returning +Inf or -Inf")
 }
 
 func (x *X) strOrderAxioms(a, b Term) {
